@@ -26,6 +26,8 @@ structure Case where
   /-- value rejected by check_is_one / check_unit_interval (hook), when the implementation failed -/
   rej : Option Rat := none
   rejSpecial : Bool := false
+  /-- class of every operand: 0 finite, 1 +inf, 2 -inf, 3 NaN (`inp` is `none` for 1..3) -/
+  inpClass : Array Nat := #[]
 
 def Case.eps (c : Case) : Rat := c.fmt.eps
 
@@ -117,30 +119,56 @@ def withValue (c : Case) (name : String) (k : Array Rat → List String) : Optio
   | none => some [name ++ ".non_finite"]
   | some out => some (k out)
 
+/-- as `withValue`, for operands that are EXACTLY well-formed and inside the operator's domain: the exact result is then
+    well-formed (theorems `C12_mul_ok`, `C12_comul_ok`, `C14_wf`), so any rejection -- by rounding residue or not -- is the
+    property's own business and is not handed over to C19 -/
+def withValueExact (c : Case) (name : String) (k : Array Rat → List String) : Option (List String) :=
+  if c.cls != "ok" then some [name ++ ".no_value(" ++ c.cls ++ ":" ++ c.label ++ ")"] else
+  match allSome c.out with
+  | none => some [name ++ ".non_finite"]
+  | some out => some (k out)
+
 /-- C12: binomial AND/OR -/
 def oracleC12 (c : Case) : Option (List String) :=
   match allSome c.inp with
   | none => none
   | some xs =>
   let x := qbAt xs 0
-  let y := qbAt xs 4
+  -- variant token `alias`: the same object is both operands (the second operand's scalars are ignored)
+  let y := if c.variant.contains "alias" then x else qbAt xs 4
   let τ := tauSpec c.fmt
+  -- variant token `p`: the projection() METHOD's answers for x, y and the result follow the result
+  let withP := c.variant.contains "p"
+  let projMethod (out : Array Rat) (r : QB) (law : String) (want : Rat → Rat → Rat) : List String :=
+    if !withP then [] else
+    if out.size != 7 then ["C12.shape"] else
+    let px := out.getD 4 0; let py := out.getD 5 0; let pr := out.getD 6 0
+    check "C12.projection_method" (closeQ τ px x.proj && closeQ τ py y.proj && closeQ τ pr r.proj)
+      ++ check law (closeQ τ pr (want px py))
+  if c.op == "bproj" then
+    -- BOpinion::projection() is b + a·u of the same opinion
+    (if !(x.wf (4 * c.eps)) then none else
+     withValueExact c "C12" fun out =>
+       if out.size != 1 then ["C12.shape"] else
+       check "C12.projection_method" (closeQ τ (out.getD 0 0) x.proj)) else
   if !(x.wf 0 && y.wf 0) then none else
   match c.op with
   | "bmul" =>
     if x.a = 1 ∧ y.a = 1 then none else
-    withValue c "C12" fun out =>
+    withValueExact c "C12" fun out =>
       let r := qbAt out 0
       check "C12.mul_wf" (r.wf (4 * τ))
         ++ check "C12.mul_base_rate" (closeQ τ r.a (x.a * y.a))
         ++ check "C12.mul_projection" (closeQ τ r.proj (x.proj * y.proj))
+        ++ projMethod out r "C12.mul_projection_method" (fun px py => px * py)
   | "bcomul" =>
     if x.a = 0 ∧ y.a = 0 then none else
-    withValue c "C12" fun out =>
+    withValueExact c "C12" fun out =>
       let r := qbAt out 0
       check "C12.comul_wf" (r.wf (4 * τ))
         ++ check "C12.comul_base_rate" (closeQ τ r.a (x.a + y.a - x.a * y.a))
         ++ check "C12.comul_projection" (closeQ τ r.proj (x.proj + y.proj - x.proj * y.proj))
+        ++ projMethod out r "C12.comul_projection_method" (fun px py => px + py - px * py)
   | "blaw" =>
     let z := qbAt xs 8
     let kind := c.ints.getD 0 0
@@ -156,6 +184,10 @@ def oracleC12 (c : Case) : Option (List String) :=
       -- the dual law multiplies the NEGATIONS: their base rates 1-a both round to 1 when both a are below half an ulp
       -- of 1, which puts the product outside mul's domain although the exact operands are inside
       | _ => okCo x y && !(decide (x.a ≤ c.eps) && decide (y.a ≤ c.eps))
+          -- ... and, more generally, a negation whose base rate 1-a is NOT representable is not the exact negation: the
+          -- relative perturbation (≤ eps) of the product's divisor 1-(1-ax)(1-ay) = ax+ay-ax*ay must stay below τ
+          && !(((SLV.ulpIdx c.fmt (1 - x.a)).den != 1 || (SLV.ulpIdx c.fmt (1 - y.a)).den != 1)
+                && decide ((x.a + y.a - x.a * y.a) * τ ≤ c.eps))
     if !dom then none else
     withValue c "C12" fun out =>
       let l := qbAt out 0
@@ -189,20 +221,28 @@ def oracleC14 (c : Case) : Option (List String) :=
         && decide (0 < ay) && decide (ay < 1)) then none else
   match c.op with
   | "bdeduce" =>
-    withValue c "C14" fun out =>
+    -- the operands are exactly well-formed and inside the open domain here: a panic, rounding residue included, is C14's
+    withValueExact c "C14" fun out =>
       let r := qbAt out 0
       let py0 := c0.1 + ay * c0.2.2
       let py1 := c1.1 + ay * c1.2.2
       check "C14.wf" (r.wf (16 * τ))
         ++ check "C14.base_rate" (closeQ τ r.a ay)
         ++ check "C14.projection" (closeQ (16 * τ) r.proj (px * py0 + (1 - px) * py1))
+        -- variant token `p`: x.projection() and the result's projection() as answered by the METHOD
+        ++ (if !(c.variant.contains "p") then [] else
+            if out.size != 6 then ["C14.shape"] else
+            let pxm := out.getD 4 0; let prm := out.getD 5 0
+            check "C14.projection_method" (closeQ τ pxm px && closeQ τ prm r.proj)
+              ++ check "C14.projection" (closeQ (16 * τ) prm (pxm * py0 + (1 - pxm) * py1)))
         ++ (if x.u = 0 then
               check "C14.dogmatic_mixture"
                 (closeQ τ r.b (x.b * c0.1 + x.d * c1.1) && closeQ τ r.d (x.b * c0.2.1 + x.d * c1.2.1)
                   && closeQ τ r.u (x.b * c0.2.2 + x.d * c1.2.2))
             else [])
   | "bdeduce_sym" =>
-    withValue c "C14" fun out =>
+    -- both sides call deduce on exactly well-formed operands of the open domain (negation and 1 - ay are exact on them)
+    withValueExact c "C14" fun out =>
       let l := qbAt out 0
       let r := qbAt out 4
       check (if c.ints.getD 0 0 == 0 then "C14.swap_x" else "C14.swap_y") (QB.close (64 * τ) l r)
@@ -325,7 +365,7 @@ def oracleC08 (c : Case) : Option (List String) :=
       if c.cls != "ok" then some ["C08.no_value(" ++ c.cls ++ ")"] else
       match allSome c.out with
       | none => some ["C08.nan_poisoned"]
-      | some _ => some (check "C08.fallback_lazy" (c.flags == [decide (w = 0)]))
+      | some _ => some (check "C08.fallback_lazy" (c.flags.take 1 == [decide (w = 0)]))
   | "abduce" =>
     let cs := condAt xs (2 * m + 1) n m
     let ax := slice xs (2 * m + 1 + n * (m + 1)) n
@@ -466,7 +506,8 @@ def oracleC11 (c : Case) : Option (List String) :=
     tolerance boundary (margin 2^-20 relative). -/
 def oracleC20 (c : Case) : Option (List String) :=
   match c.op with
-  | "bcmpc" =>
+  | "bcmpc" | "bcmpd" =>
+    -- (`bcmpd`: the forms with default tolerances; every component answer is the scalar type's own, with ITS defaults)
     -- exact, for every input (NaN, infinities, boundary of the tolerance included): the comparison of the opinions is the
     -- conjunction of the scalar type's own comparison of b, d, u and a
     if c.cls != "ok" then some ["C20.no_value"] else
@@ -508,6 +549,16 @@ def oracleC20 (c : Case) : Option (List String) :=
     if c.cls != "ok" then some ["C20.no_value"] else
     some (check (if expect then "C20.equal_components_compare_equal" else "C20.single_component_difference_detected")
       (c.flags == [expect]))
+  | "meq_alias" =>
+    -- an opinion compared with ITSELF (the same object on both sides): cell-wise IEEE ==, i.e. false iff a cell is NaN
+    let n := if c.ints.length ≥ 2 then c.ints.getD 0 0 * c.ints.getD 1 0 else c.ints.getD 0 0
+    if c.inpClass.size != 2 * n + 1 then none else
+    let nanFree (off len : Nat) : Bool := (c.inpClass.extract off (off + len)).all (· != 3)
+    let sEq := nanFree 0 (n + 1)
+    let aEq := nanFree (n + 1) n
+    let oEq := sEq && aEq
+    if c.cls != "ok" then some ["C20.no_value"] else
+    some (check "C20.same_object_eq_iff_nan_free" (c.flags == [sEq, oEq, oEq, aEq, oEq]))
   | "meq" =>
     match allSome c.inp with
     | none => none
@@ -563,7 +614,19 @@ def oracleC01 (c : Case) : Option (List String) :=
                    && (!hasA || (a.all band && (isB || decide (absQ (sumA - 1) ≤ 4 * e + slack)))))
              ++ (if isB then [] else
                   check "C01.vacuous_iff" (c.flags.getD 0 false == (decide (1 - 2 * e ≤ u) && decide (u ≤ 1 + 4 * e)))
-                  ++ check "C01.dogmatic_iff" (c.flags.getD 1 false == decide (absQ u ≤ e))))
+                  ++ check "C01.dogmatic_iff" (c.flags.getD 1 false == decide (absQ u ≤ e))
+                  -- borrowed views (as_ref, From<&Opinion>, From<(&Simplex, &T)>; a bare simplex has the last one only) and
+                  -- their round trips to an owned opinion (cloned / into_opinion): flags `vac dog` per view, `vac dog same` per
+                  -- round trip, after the owner's two
+                  ++ (let vac := c.flags.getD 0 false
+                      let dog := c.flags.getD 1 false
+                      let vf := c.flags.drop 2
+                      let nViews := if hasA then 3 else 1
+                      let nRts := if hasA then 2 else 1
+                      let pairOk (o : Nat) : Bool := vf.getD o (!vac) == vac && vf.getD (o + 1) (!dog) == dog
+                      check "C01.view_predicates_agree" ((List.range nViews).all fun i => pairOk (2 * i))
+                        ++ check "C01.view_roundtrip_predicates" ((List.range nRts).all fun j => pairOk (2 * nViews + 3 * j))
+                        ++ check "C01.view_roundtrip_stores" ((List.range nRts).all fun j => vf.getD (2 * nViews + 3 * j + 2) false))))
       else []
     some (r1 ++ r2 ++ r3)
 
@@ -603,7 +666,8 @@ def oracleC04 (c : Case) : Option (List String) :=
     let apex : List String := match deduceSpec bx ux ax cs ay m with
       | none => []
       | some (bWant, uWant) => check "C04.mixture_plus_apex" (closeQ τ u uWant && closeList τ b bWant)
-    check "C04.wf" (wfSimplex (τ * (m + 1)) b u)
+    (if c.variant.contains "shared" then check "C04.shared_table_eq_by_value" (c.flags.getLast? == some true) else [])
+      ++ check "C04.wf" (wfSimplex (τ * (m + 1)) b u)
       ++ check "C04.base_rate" (closeList τ a ay)
       ++ check "C04.total_probability" (closeList τ (projQ b u ay) want)
       ++ absolute ++ apex
@@ -718,9 +782,40 @@ def oracleC13 (c : Case) : Option (List String) :=
       some (check "C13.roundtrip" (decide (back.b = x.b) && decide (back.d = x.d) && decide (back.u = x.u) && decide (back.a = x.a))
         ++ check "C13.to_opinion" (b == [x.b, x.d] && decide (u = x.u) && decide (a.getD 0 0 = x.a) && closeQ (2 * e) (a.getD 1 0) (1 - x.a))
         ++ check "C13.projection" (closeQ τ ((projQ b u a).getD 0 0) x.proj))
+  | "bconv_all" =>
+    -- every conversion path between the binomial and the binary multinomial representation (layout: PROTOCOL.md)
+    let x := qbAt xs 0
+    if c.cls != "ok" then some ["C13.no_value"] else
+    match allSome c.out with
+    | none => some ["C13.non_finite"]
+    | some out =>
+      if out.size != 38 then some ["C13.shape"] else
+      let oFrom := slice out 0 5
+      let oInto := slice out 5 5
+      let backs := [qbAt out 10, qbAt out 14, qbAt out 18, qbAt out 22]   -- from value, into value, from ref, into ref
+      let sv := slice out 26 3
+      let oAgain := slice out 29 5
+      let pB := out.getD 34 0
+      let pM := slice out 35 2
+      let pBack := out.getD 37 0
+      let same (w : QB) : Bool := decide (w.b = x.b) && decide (w.d = x.d) && decide (w.u = x.u) && decide (w.a = x.a)
+      let (b, u, a) := opinionAt out 0 2
+      some (check "C13.to_opinion" (b == [x.b, x.d] && decide (u = x.u) && decide (a.getD 0 0 = x.a) && closeQ (2 * e) (a.getD 1 0) (1 - x.a))
+        ++ check "C13.from_eq_into" (oFrom == oInto)
+        ++ check "C13.roundtrip" (same (backs.getD 0 x) && same (backs.getD 1 x))
+        ++ check "C13.roundtrip_by_ref" (same (backs.getD 2 x) && same (backs.getD 3 x))
+        ++ check "C13.by_ref_eq_by_value" (backs.all fun w => w.b = (backs.getD 0 x).b ∧ w.d = (backs.getD 0 x).d
+              ∧ w.u = (backs.getD 0 x).u ∧ w.a = (backs.getD 0 x).a)
+        ++ check "C13.simplex_view" (sv == [x.b, x.d, x.u])
+        ++ check "C13.second_trip" (oAgain == oFrom)
+        ++ (if !(x.wf (4 * e)) then [] else
+            check "C13.projection_method" (closeQ τ pB x.proj && closeQ τ pBack x.proj)
+              ++ check "C13.projection" (closeQ τ (pM.getD 0 0) x.proj && closeQ τ (pM.getD 0 0) pB
+                  && closeQ (τ + 2 * e) (pM.getD 1 0) (1 - x.proj))))
   | "bvs" =>
     let x := qbAt xs 0
-    let y := qbAt xs 4
+    -- variant token `alias`: the same object on both sides (y's scalars are ignored)
+    let y := if c.variant.contains "alias" then x else qbAt xs 4
     let kind := c.ints.getD 0 0
     if !(x.wf (4 * e) && y.wf (4 * e)) then none else
     -- uncertainties in (0, eps] are excluded: the two families deliberately classify them differently
@@ -754,17 +849,19 @@ def oracleC19 (c : Case) : Option (List String) :=
   | some xs =>
   let failed := c.cls == "err" || c.cls == "panic"
   let e4 := 4 * c.eps
+  -- second operand of the binary binomial operators; variant token `alias`: the same object as the first
+  let y2 (x : QB) : QB := if c.variant.contains "alias" then x else qbAt xs 4
   let legit : Option Bool :=  -- some true: failure legitimate; some false: must not fail; none: outside domain
     match c.op with
-    | "bmul" => let x := qbAt xs 0; let y := qbAt xs 4
+    | "bmul" => let x := qbAt xs 0; let y := y2 x
       if !(x.wf e4 && y.wf e4) then none else some (decide (x.a * y.a = 1))
-    | "bcomul" => let x := qbAt xs 0; let y := qbAt xs 4
+    | "bcomul" => let x := qbAt xs 0; let y := y2 x
       if !(x.wf e4 && y.wf e4) then none else some (decide (x.a = 0) && decide (y.a = 0))
-    | "bcfuse" => let x := qbAt xs 0; let y := qbAt xs 4
+    | "bcfuse" => let x := qbAt xs 0; let y := y2 x
       if !(x.wf e4 && y.wf e4) then none else
       if (decide (0 < x.u) && decide (x.u ≤ c.eps)) || (decide (0 < y.u) && decide (y.u ≤ c.eps)) then none
       else some (decide (x.u = 0) && decide (y.u = 0))
-    | "bafuse" | "bwfuse" => let x := qbAt xs 0; let y := qbAt xs 4; let g := xs.getD 8 0
+    | "bafuse" | "bwfuse" => let x := qbAt xs 0; let y := y2 x; let g := xs.getD 8 0
       if !(x.wf e4 && y.wf e4 && decide (0 ≤ g) && decide (g ≤ 1)) then none else some false
     | "bdeduce" =>
       let x := qbAt xs 0; let c0 := triAt xs 4; let c1 := triAt xs 7; let ay := xs.getD 10 0
@@ -854,7 +951,17 @@ def oracleC16 (c : Case) : Option (List String) :=
     | _, _ => none
   | _ => if c.cls == "ok" || c.cls == "none" || c.cls == "panic" || c.cls == "err" then some [] else none
 
-def oracle (c : Case) : Option (List String) :=
+/-- multi-dimensional container families (`M2`, `D3`, …): the last two flags of an `ok` result are `it` (iterating the
+    result's containers visits the cells the index operator gives, in row-major order) and `eq` (the result is `==` to a
+    container built independently from the values read through the index operator) -/
+def ndClauses (c : Case) : List String :=
+  let f := c.variant.getD 0 ""
+  if !(f.length == 2 && (f.endsWith "2" || f.endsWith "3")) || c.cls != "ok" then [] else
+  let k := c.flags.length
+  check (c.prop ++ ".container_iteration_is_index_order") (k ≥ 2 && c.flags.getD (k - 2) false)
+    ++ check (c.prop ++ ".container_eq_rebuilt") (k ≥ 2 && c.flags.getD (k - 1) false)
+
+def oracleProp (c : Case) : Option (List String) :=
   match c.prop with
   | "C07" => oracleC07 c
   | "C16" => oracleC16 c
@@ -874,5 +981,11 @@ def oracle (c : Case) : Option (List String) :=
   | "C12" => oracleC12 c
   | "C14" => oracleC14 c
   | _ => none
+
+def oracle (c : Case) : Option (List String) :=
+  match ndClauses c, oracleProp c with
+  | [], r => r
+  | fs, some r => some (fs ++ r)
+  | fs, none => some fs
 
 end SLV.Oracle
